@@ -21,10 +21,10 @@ open Extracted.TH Guard
 
 /-! ### facts read off the extracted skeletons -/
 
-def stepsIsolated : Bool := IsoLoopIn RaiseSet.all "steps" Extracted.Guards.deepShutdown
-def flushIsolated : Bool := IsoLoopIn RaiseSet.all "list(self._pending.values())" Extracted.Guards.taskFlush
+def stepsIsolated : Bool := IsoLastLoop RaiseSet.all Extracted.Guards.deepShutdown
+def flushIsolated : Bool := IsoLastLoop RaiseSet.all Extracted.Guards.taskFlush
 def timerGuarded : Bool := mayRaiseA RaiseSet.onlyExc
-  ((findLoop "not self.event.wait(self._time)" Extracted.Guards.timerTarget).elim (.call "?") (fun b => lastOf b))
+  ((lastLoop Extracted.Guards.timerTarget).elim (.call "?") (fun p => lastOf p.2))
   == RaiseSet.empty
 def startGuarded : Bool := startsWithGuard "self.started" Extracted.Guards.deepStart
 def shutdownGuarded : Bool := startsWithGuard "not self.started" Extracted.Guards.deepShutdown
